@@ -512,34 +512,45 @@ def resolve_last(oplists):
     return oplists
 
 
-def apalache_c05(tier):
-    """Symbolic inductive step of C05 with Apalache (spec/apalache/Ind_C05.tla): strings are unbounded integers."""
+APALACHE = {
+    "C05": {"module": "Ind_C05.tla", "init": "IndInit", "inv": "IndInv", "witnesses": [("NoThreeRecords", 0), ("NeverMerged", 0)],
+            "what": "IndInv /\\ AddRecord => IndInv' (one owner per prefix, the four lookup structures are what the records denote)",
+            "bounds": "<=3 records, <=2 synonyms per side, strings = unbounded integers, casefold = x div 2"},
+    "C12": {"module": "Ind_C12.tla", "init": "Init", "inv": "Inv", "witnesses": [("NeverRepointed", 1), ("NeverClash", 1)],
+            "what": "the declarative statement of C12 on the result of remap_uri_prefixes / rewire",
+            "bounds": "<=3 records, <=2 synonyms per side, every injective non-ambiguous mapping of <=2 pairs, strings = unbounded integers"},
+}
+
+
+def apalache(pid, tier):
+    """Symbolic check with Apalache (spec/apalache/*.tla): strings are unbounded integers, only sizes are bounded."""
     import re
     import shutil
     import subprocess
+    cfg = APALACHE[pid]
     d = tlc.scratch("apa")
-    res = {"module": "spec/apalache/Ind_C05.tla", "bounds": "<=3 records, <=2 synonyms per side, strings = unbounded integers, casefold = x div 2"}
+    res = {"module": "spec/apalache/" + cfg["module"], "checked": cfg["what"], "bounds": cfg["bounds"]}
     try:
         def run(inv, length):
-            p = subprocess.run(["apalache-mc", "check", "--init=IndInit", f"--inv={inv}", f"--length={length}", f"--out-dir={d}", "Ind_C05.tla"],
+            p = subprocess.run(["apalache-mc", "check", f"--init={cfg['init']}", f"--inv={inv}", f"--length={length}", f"--out-dir={d}", cfg["module"]],
                                cwd=os.path.join(tlc.SPEC, "apalache"), stdout=subprocess.PIPE, stderr=subprocess.STDOUT, text=True, timeout=900)
             m = re.search(r"The outcome is: (\w+)", p.stdout)
             return (m.group(1) if m else "?"), p.stdout
         t = time.time()
-        out, log = run("IndInv", 1)
-        res["inductive_step"] = out
+        out, log = run(cfg["inv"], 1)
+        res["outcome"] = out
         res["wall_s"] = round(time.time() - t, 1)
         if out != "NoError":
-            raise MachineryError("Apalache: IndInv /\\ AddRecord => IndInv' does not hold for the specification's AddRecord\n" + log[-1500:])
+            raise MachineryError(f"Apalache: {cfg['what']} does not hold for the specification\n" + log[-1500:])
         if tier == "thorough":
-            for w in ("NoThreeRecords", "NeverMerged"):
-                o, log = run(w, 0)
+            for w, length in cfg["witnesses"]:
+                o, log = run(w, length)
                 res["witness_" + w] = o
                 if o != "Error":
-                    raise MachineryError(f"Apalache vacuity: the initial condition does not admit a state violating {w}")
+                    raise MachineryError(f"Apalache vacuity: no state violating {w} is admitted")
         return res
     except subprocess.TimeoutExpired:
-        res["inductive_step"] = "timeout (not relied upon)"
+        res["outcome"] = "timeout (not relied upon)"
         return res
     finally:
         shutil.rmtree(d, ignore_errors=True)
@@ -579,7 +590,7 @@ def check(pid, tier, seed):
                 if not res["cex"]:
                     raise MachineryError(f"TLC reports {res['violated']} violated on {model} but no counterexample could be parsed")
                 cex_ops.append((model, res["violated"], world.conc_hist(res["cex"], world.CONCRETE["ascii"])))
-    apa = apalache_c05(tier) if pid == "C05" else None
+    apa = apalache(pid, tier) if pid in APALACHE else None
     sim_stats = None
     sim_ops = []
     if pid == "C10" or (tier == "thorough" and pid in ("C05", "C09", "C11", "C12")):
@@ -655,7 +666,7 @@ def check(pid, tier, seed):
                 "distinct operation lists executed on the implementation (each creates at least one converter and is followed by a probe table)",
         "exhaustive": all(not m["violated"] for m in models),
         "models": models, "trace_events": n_events, "event_kinds": kinds,
-        "simulation": sim_stats, "apalache_inductive_step": apa, "repository_tests_as_driver": repo, "behaviours_from_tlc": n_hist, "spec_signature_coverage": STRATA.get(pid), "behaviours_from_simulation": len(sim_ops), "behaviours_random": len(oplists) - n_hist - n_cex - len(sim_ops),
+        "simulation": sim_stats, "apalache_symbolic_check": apa, "repository_tests_as_driver": repo, "behaviours_from_tlc": n_hist, "spec_signature_coverage": STRATA.get(pid), "behaviours_from_simulation": len(sim_ops), "behaviours_random": len(oplists) - n_hist - n_cex - len(sim_ops),
         "concretisations": CMAPS[tier], "trace_validation": st,
         "other_clauses_failed": other, "known_findings": [k["id"] for k in known],
         "checker_cmd": "tlc -workers 16 spec/mc/MC_*.tla ; TRACE_FILE=<batch> tlc spec/Trace.tla",
